@@ -33,6 +33,7 @@ def errTooBig : Err := .other "length"
 def errAuthKey : Err := .other "auth-key-id"
 def errBomb : Err := .other "bomb"
 def errGzip : Err := .other "gzip"
+def errGzipHeader : Err := .other "gzip-header"
 
 /-! ### proto.Message / proto.MessageContainer -/
 
@@ -160,13 +161,18 @@ def decodeUnencrypted (b : Bytes) : Res Unencrypted :=
 
 /-! ### proto.GZIP -/
 
-/-- gzip as a parameter. `gunz c = (out, clean)`. -/
+/-- gzip as a parameter.  `hdrOK c`: `gzip.NewReader` / `Reader.Reset` accept the stream's header
+(otherwise `GZIP.Decode` fails with "gzip error" before reading anything); `gunz c = (out, clean)`:
+the bytes the reader delivers before the stream ends and whether it ended cleanly (otherwise the
+"decompress"/"checksum" errors). -/
 structure Gz where
   gz : Bytes → Bytes
+  hdrOK : Bytes → Bool
   gunz : Bytes → Bytes × Bool
 
 /-- The one law the round trip needs: decompressing what was compressed gives it back, cleanly. -/
 structure LawfulGz (G : Gz) : Prop where
+  hdr_gz : ∀ d, G.hdrOK (G.gz d) = true
   gunz_gz : ∀ d, G.gunz (G.gz d) = (d, true)
 
 /-- `GZIP.Encode` given the compressed bytes: id, then the compressed data as TL bytes. -/
@@ -203,13 +209,16 @@ def decodeGzip (G : Gz) (b : Bytes) : Res Bytes :=
   match gzipUnframe b with
   | .error e => .error e
   | .ok (buf, rest) =>
-    match gunzLimited (G.gunz buf) with
-    | .error e => .error e
-    | .ok d => .ok (d, rest)
+    if !G.hdrOK buf then .error errGzipHeader
+    else
+      match gunzLimited (G.gunz buf) with
+      | .error e => .error e
+      | .ok d => .ok (d, rest)
 
 /-- A lawful toy instance (store uncompressed), for non-vacuity. -/
 def Gz.store : Gz where
   gz := fun d => d
+  hdrOK := fun _ => true
   gunz := fun c => (c, true)
 
 /-! ### Panic-explicit transliterations (`make([]byte, n)`, `ConsumeN`, `Skip`) -/
@@ -262,6 +271,94 @@ def decodeUnencryptedP (b : Bytes) : Out (Unencrypted × Bytes) := do
 def gzipUnframeP (b : Bytes) : Out (Bytes × Bytes) := do
   let (_, r) ← consumeIDP gzipID b
   getBytesP r
+
+/-! ### The generated twins in /repo/mt (`mt.GzipPacked`, `mt.Message`, `mt.MsgContainer`, `mt.RPCResult`)
+
+Generated from the MTProto schema; they describe the same wire objects as the hand-written proto
+types (the body of a message / result is typed as a boxed `gzip_packed` there), without the size
+limits. -/
+
+/-- `mt.GzipPacked.Encode`: boxed `gzip_packed#3072cfa1 packed_data:bytes` — the same frame `proto.GZIP`
+writes around its compressed data. -/
+def mtEncodeGzip (packed : Bytes) : Bytes := putU32 Facts.C22.mtGzipPackedTypeID ++ putBytes packed
+
+/-- `mt.GzipPacked.Decode`. -/
+def mtDecodeGzip (b : Bytes) : Res Bytes :=
+  match consumeID Facts.C22.mtGzipPackedTypeID b with
+  | .error e => .error e
+  | .ok (_, r) => getBytes r
+
+structure MtMessage where
+  msgID : Int
+  seqno : Int
+  bytes : Int
+  packed : Bytes      -- Body.PackedData
+  deriving Repr, DecidableEq
+
+/-- `mt.Message.EncodeBare`. -/
+def mtEncodeMessage (m : MtMessage) : Bytes :=
+  putInt64 m.msgID ++ putInt32 m.seqno ++ putInt32 m.bytes ++ mtEncodeGzip m.packed
+
+/-- `mt.Message.DecodeBare`. -/
+def mtDecodeMessage (b : Bytes) : Res MtMessage :=
+  match getInt64 b with
+  | .error e => .error e
+  | .ok (id, r1) =>
+    match getInt32 r1 with
+    | .error e => .error e
+    | .ok (seq, r2) =>
+      match getInt32 r2 with
+      | .error e => .error e
+      | .ok (n, r3) =>
+        match mtDecodeGzip r3 with
+        | .error e => .error e
+        | .ok (p, r4) => .ok (⟨id, seq, n, p⟩, r4)
+
+/-- `mt.MsgContainer.Encode`. -/
+def mtEncodeContainer (ms : List MtMessage) : Bytes :=
+  putU32 Facts.C22.mtMsgContainerTypeID ++ putInt32 ms.length ++ (ms.map mtEncodeMessage).flatten
+
+def mtDecodeMessages : Nat → Bytes → Res (List MtMessage)
+  | 0, b => .ok ([], b)
+  | n + 1, b =>
+    match mtDecodeMessage b with
+    | .error e => .error e
+    | .ok (m, r) =>
+      match mtDecodeMessages n r with
+      | .error e => .error e
+      | .ok (ms, r') => .ok (m :: ms, r')
+
+/-- The capacity `mt.MsgContainer.DecodeBare` pre-allocates: `headerLen % bin.PreallocateLimit` when positive. -/
+def mtPrealloc (headerLen : Int) : Nat :=
+  if headerLen > 0 then (Int.tmod headerLen Facts.C22.preallocateLimit).toNat else 0
+
+/-- `mt.MsgContainer.Decode`. -/
+def mtDecodeContainer (b : Bytes) : Res (List MtMessage) :=
+  match consumeID Facts.C22.mtMsgContainerTypeID b with
+  | .error e => .error e
+  | .ok (_, r) =>
+    match getInt32 r with
+    | .error e => .error e
+    | .ok (n, r') => mtDecodeMessages n.toNat r'
+
+/-- `mt.RPCResult.Encode`. -/
+def mtEncodeResult (reqMsgID : Int) (packed : Bytes) : Bytes :=
+  putU32 Facts.C22.mtRPCResultTypeID ++ putInt64 reqMsgID ++ mtEncodeGzip packed
+
+/-- `mt.RPCResult.Decode`. -/
+def mtDecodeResult (b : Bytes) : Res (Int × Bytes) :=
+  match consumeID Facts.C22.mtRPCResultTypeID b with
+  | .error e => .error e
+  | .ok (_, r) =>
+    match getInt64 r with
+    | .error e => .error e
+    | .ok (id, r') =>
+      match mtDecodeGzip r' with
+      | .error e => .error e
+      | .ok (p, r'') => .ok ((id, p), r'')
+
+/-- The proto message whose body is a gzip_packed frame around `m.packed` (what the twins have in common). -/
+def MtMessage.toProto (m : MtMessage) : Message := ⟨m.msgID, m.seqno, m.bytes, gzipFrame m.packed⟩
 
 /-! ### Regenerated write / read orders, interpreted
 
